@@ -99,7 +99,7 @@ type stallSnapT struct {
 func (cc *cliConn) stallSnap() stallSnapT {
 	nb, _ := cc.mc.out.blockedOn()
 	return stallSnapT{http2.VerifClientEnqN.Load(), http2.VerifClientDeqN.Load(), http2.VerifClientLoopExits.Load(),
-		cc.mc.in.unread(), cc.mc.out.unread(), cc.mc.out.total, cc.mc.in.idle(), nb, cc.ready()}
+		cc.mc.in.unread(), cc.mc.out.unread(), cc.mc.out.written(), cc.mc.in.idle(), nb, cc.ready()}
 }
 
 // nap yields for about 150 microseconds (time.Sleep rounds up to a millisecond or more on this kind of machine).
